@@ -727,6 +727,33 @@ func (g *Gen) RollbackProbe() Tx {
 		raw := in.Bytes()
 		return &ct.MsgReceiveMessage{From: g.acct(), Message: raw, Attestation: att(raw)}
 	}
+	// attestedWith: a plain inbound message attested by threshold-many keys that include k (k replaces one
+	// enabled signer when outsider, i.e. when k is not enabled in committed state).
+	attestedWith := func(k *ref.Key, outsider bool) sdk.Msg {
+		g.inNonce++
+		in := &InMsg{Version: 0, Src: 2, Dst: 4, Nonce: g.inNonce, Sender: g.rand32(), Recipient: g.rand32(), Caller: make([]byte, 32), Body: []byte("attested-with")}
+		raw := in.Bytes()
+		keys := e.EnabledPoolKeys()
+		t := int(m.Threshold)
+		if k == nil || t < 1 || t > len(keys) {
+			return &ct.MsgReceiveMessage{From: g.acct(), Message: raw, Attestation: att(raw)}
+		}
+		var signers []*ref.Key
+		if outsider {
+			signers = append(signers, k)
+		} else {
+			signers = append(signers, k)
+		}
+		for _, ek := range keys {
+			if len(signers) >= t {
+				break
+			}
+			if ek != k {
+				signers = append(signers, ek)
+			}
+		}
+		return &ct.MsgReceiveMessage{From: g.acct(), Message: raw, Attestation: ref.HonestAttestation(raw, signers, r.Intn(3))}
+	}
 	switch r.Intn(14) {
 	case 0:
 		first = &ct.MsgUpdatePauser{From: m.Owner, NewPauser: nw}
@@ -749,11 +776,11 @@ func (g *Gen) RollbackProbe() Tx {
 		x := freshAttester(m, r.Intn(8))
 		first = &ct.MsgEnableAttester{From: m.AM, Attester: x}
 		reader = &ct.MsgUpdateSignatureThreshold{From: m.AM, Amount: uint32(len(m.Attesters) + 2)}
-		follow = []sdk.Msg{&ct.MsgUpdateSignatureThreshold{From: m.AM, Amount: uint32(len(m.Attesters) + 1)}, plainInbound()}
+		follow = []sdk.Msg{attestedWith(poolKeyBySpelling(x), true), &ct.MsgUpdateSignatureThreshold{From: m.AM, Amount: uint32(len(m.Attesters) + 1)}, plainInbound()}
 	case 5:
 		first = &ct.MsgDisableAttester{From: m.AM, Attester: firstAttester(m)}
 		reader = &ct.MsgDisableAttester{From: m.AM, Attester: "0x00"}
-		follow = []sdk.Msg{plainInbound(), &ct.MsgUpdateSignatureThreshold{From: m.AM, Amount: uint32(len(m.Attesters))}}
+		follow = []sdk.Msg{attestedWith(poolKeyBySpelling(firstAttester(m)), false), plainInbound(), &ct.MsgUpdateSignatureThreshold{From: m.AM, Amount: uint32(len(m.Attesters))}}
 	case 6:
 		if m.PausedSR {
 			first = &ct.MsgUnpauseSendingAndReceivingMessages{From: m.Pauser}
@@ -834,4 +861,15 @@ func (g *Gen) RollbackProbeFirstOnly() Tx {
 	tx := g.RollbackProbe()
 	g.noSameBlock = false
 	return Tx{Msgs: tx.Msgs[:2], Note: "simulated " + tx.Note}
+}
+
+func poolKeyBySpelling(sp string) *ref.Key {
+	for _, k := range AttesterPool {
+		for st := 0; st < 4; st++ {
+			if k.Spell(st) == sp {
+				return k
+			}
+		}
+	}
+	return nil
 }
